@@ -26,28 +26,18 @@ func ruleBulkLengthBound(w *core.World, r *core.Report) {
 	if f == nil {
 		return
 	}
-	var hdr *ssa.Call
-	for _, s := range core.SitesNamed(f, false, "(*pkg/redis/client.Decoder).decodeInt") {
-		if c, ok := s.Instr.(*ssa.Call); ok && hdr == nil {
-			hdr = c
+	// the header read: a call of decodeInt in the function itself or in a helper the path steps into (a
+	// length helper with several call sites); located per path
+	const hdrName = "(*pkg/redis/client.Decoder).decodeInt"
+	hdrOn := func(p *core.Path) *ssa.Call {
+		for _, s := range pathSites(p) {
+			if c, ok := s.Instr.(*ssa.Call); ok && s.Name == hdrName {
+				return c
+			}
 		}
+		return nil
 	}
-	if hdr == nil {
-		r.Unresolved("Decoder.decodeBulkBytes/length-header", "the read of the announced length (decodeInt) was not found")
-		return
-	}
-	var n ssa.Value
-	for _, ref := range *hdr.Referrers() {
-		if e, ok := ref.(*ssa.Extract); ok && e.Index == 0 {
-			n = e
-		}
-	}
-	if n == nil {
-		r.Undecided("Decoder.decodeBulkBytes/length-bound", hdr.Pos(), "the announced length is not taken from the header read")
-		return
-	}
-	zero := ssa.NewConst(constant.MakeInt64(0), n.Type())
-	max := ssa.NewConst(constant.MakeInt64(protoMaxBulkLen), n.Type())
+	sawHdr := false
 	bad, und := "", ""
 	var pos token.Pos = f.Pos()
 	refusals := 0
@@ -56,24 +46,49 @@ func ruleBulkLengthBound(w *core.World, r *core.Report) {
 		if !ok || ret.Parent() != f || bad != "" || len(ret.Results) == 0 {
 			return
 		}
+		hdr := hdrOn(p)
+		if hdr == nil {
+			return
+		}
+		sawHdr = true
 		if pathNil(p, ret.Results[len(ret.Results)-1]) || failedOn(p, hdr) {
 			return
 		}
-		seenHdr := false
 		for _, s := range pathSites(p) {
-			if s.Instr == ssa.CallInstruction(hdr) {
-				seenHdr = true
-			}
 			if s.Name == "io.ReadFull" || strings.HasPrefix(s.Name, "(*bufio.Reader).") {
 				return // the body has been asked for: what fails from here on is the stream or its framing
 			}
 		}
-		if !seenHdr {
+		var n ssa.Value
+		for _, ref := range *hdr.Referrers() {
+			if e, ok := ref.(*ssa.Extract); ok && e.Index == 0 {
+				n = e
+			}
+		}
+		if n == nil {
+			und, pos = "the announced length is not taken from the header read", hdr.Pos()
 			return
 		}
+		zero := ssa.NewConst(constant.MakeInt64(0), n.Type())
+		max := ssa.NewConst(constant.MakeInt64(protoMaxBulkLen), n.Type())
+		// the length as the function sees it: the header's result, or whatever resolves to it on this path (the
+		// result of a helper that read the header)
+		isLen := func(v ssa.Value) bool { return core.Unwrap(v) == n || core.Unwrap(p.Resolve(v)) == n }
+		names := []ssa.Value{n}
+		for _, fct := range p.Conds {
+			if c, ok := core.FactCmp(fct); ok {
+				for _, v := range []ssa.Value{c.X, c.Y} {
+					if v != n && isLen(v) {
+						names = append(names, v)
+					}
+				}
+			}
+		}
 		refusals++
-		if p.Entails(n, token.LSS, zero) || p.Entails(n, token.GTR, max) {
-			return
+		for _, v := range names {
+			if p.Entails(v, token.LSS, zero) || p.Entails(v, token.GTR, max) {
+				return
+			}
 		}
 		// what the refusal was decided on
 		readable := false
@@ -83,7 +98,6 @@ func ruleBulkLengthBound(w *core.World, r *core.Report) {
 				continue
 			}
 			x, y := p.Resolve(c.X), p.Resolve(c.Y)
-			isLen := func(v ssa.Value) bool { return core.Unwrap(v) == n }
 			_, xc := core.ConstInt(x)
 			_, yc := core.ConstInt(y)
 			if core.DependsOn(x, isLen) && yc || core.DependsOn(y, isLen) && xc {
@@ -98,6 +112,8 @@ func ruleBulkLengthBound(w *core.World, r *core.Report) {
 		}
 	})
 	switch {
+	case okEnum && !sawHdr:
+		r.Unresolved("Decoder.decodeBulkBytes/length-header", "the read of the announced length (decodeInt) was not found")
 	case !okEnum:
 		r.Undecided("Decoder.decodeBulkBytes/length-bound", f.Pos(), "too many paths")
 	case bad != "":
